@@ -16,7 +16,16 @@ pub const MIXED: u8 = 5;
 /// `((k % 4) << 6) | ((k / 4) << 32)`: one bin in a 64-bin table, splits in two at 128 bins
 /// and in four at 256 bins
 pub const SPLITTING: u8 = 6;
-pub const ALL_MODES: [u8; 7] = [UNIFORM, IDENTITY, CONSTANT, SAMEBIN, HIGHBITS, MIXED, SPLITTING];
+/// `(k % 5) << 32`: one bin, five groups of equal hashes, hash order unrelated to key order
+pub const MODGROUPS: u8 = 7;
+/// `(0xffff - (k & 0xffff)) << 32`: one bin, all hashes different, hash order the reverse of key order
+pub const REVERSED: u8 = 8;
+/// `0xC0 | (k << 32)`: bin 0 up to 64 bins, moves as a whole to the HIGH half at 64 -> 128 and
+/// again at 128 -> 256
+pub const ALLHIGH: u8 = 9;
+pub const ALL_MODES: [u8; 10] = [UNIFORM, IDENTITY, CONSTANT, SAMEBIN, HIGHBITS, MIXED, SPLITTING, MODGROUPS, REVERSED, ALLHIGH];
+/// the modes that crowd one bin
+pub const CROWDED_MODES: [u8; 7] = [CONSTANT, SAMEBIN, MIXED, SPLITTING, MODGROUPS, REVERSED, ALLHIGH];
 
 pub fn mode_name(m: u8) -> &'static str {
     match m {
@@ -27,6 +36,9 @@ pub fn mode_name(m: u8) -> &'static str {
         HIGHBITS => "highbits",
         MIXED => "mixed",
         SPLITTING => "splitting",
+        MODGROUPS => "modgroups",
+        REVERSED => "reversed",
+        ALLHIGH => "allhigh",
         _ => "?",
     }
 }
@@ -39,6 +51,9 @@ pub fn hash_of(mode: u8, k: u64) -> u64 {
         SAMEBIN => k << 32,
         HIGHBITS => k << 48,
         MIXED => (k / 3) << 32,
+        MODGROUPS => (k % 5) << 32,
+        REVERSED => (0xffff - (k & 0xffff)) << 32,
+        ALLHIGH => 0xC0 | (k << 32),
         _ => ((k % 4) << 6) | ((k / 4) << 32),
     }
 }
